@@ -46,6 +46,9 @@ def parse(ts):
     return datetime.datetime.strptime(ts, "%Y-%m-%dT%H:%M:%SZ").replace(tzinfo=datetime.timezone.utc)
 
 
+_NOT_GIVEN = object()
+
+
 def check_result(kind, args_case, kwargs_case, out, rec, lib, tz, t_before, t_after):
     """postconditions on a returned metadata object"""
     C = lib.common
@@ -57,7 +60,7 @@ def check_result(kind, args_case, kwargs_case, out, rec, lib, tz, t_before, t_af
     kw = caselang.dec(kwargs_case, lib)
     if kind == "delegating":
         want_type = kw.get("metadata_type")
-        want_version = kw.get("version", 1)
+        want_version = kw.get("version", _NOT_GIVEN)  # "carries the GIVEN version": an omitted version has no stated value
         want_ts, want_exp = kw.get("timestamp"), kw.get("expiration")
         want_dels = kw.get("delegations") if kw.get("delegations") is not None else {}
     else:
@@ -76,7 +79,9 @@ def check_result(kind, args_case, kwargs_case, out, rec, lib, tz, t_before, t_af
 
     if not same(md.get("type"), want_type):
         rec.violation("builder/%s/type-not-verbatim" % kind, "type %r, argument %r" % (md.get("type"), want_type), case)
-    if not same(md.get("version"), want_version):
+    if want_version is _NOT_GIVEN:
+        rec.count("version_not_given")
+    elif not same(md.get("version"), want_version):
         rec.violation("builder/%s/version-not-verbatim" % kind, "version %r, argument %r" % (md.get("version"), want_version), case)
     if not same(md.get("delegations"), want_dels):
         rec.violation("builder/%s/delegations-not-verbatim" % kind, "delegations differ from the arguments", case)
@@ -99,7 +104,12 @@ def check_result(kind, args_case, kwargs_case, out, rec, lib, tz, t_before, t_af
         else:
             dt = parse(ts)
             # the library reads the same system clock between t_before (floored to the second) and t_after; 2 s of slack
-            if not (t_before - datetime.timedelta(seconds=TOL) <= dt <= t_after + datetime.timedelta(seconds=TOL)):
+            midnight = t_before.replace(hour=0, minute=0, second=0, microsecond=0)
+            if dt in (midnight, midnight - datetime.timedelta(days=1)) and dt.hour == 0:
+                # "00:00:00 of the current / a past day" - the less revealing default the library's own comments propose; the statement
+                # does not say a default timestamp is the current second
+                rec.count("default_timestamp_is_midnight_variant")
+            elif not (t_before - datetime.timedelta(seconds=TOL) <= dt <= t_after + datetime.timedelta(seconds=TOL)):
                 rec.violation("builder/%s/default-timestamp-not-utc-now/tz=%s" % (kind, "UTC" if tz == "UTC" else "nonUTC"),
                               "default timestamp %s is not within %d s of UTC now %s (TZ=%s)" % (ts, TOL, t_before.isoformat(), tz), case)
     if want_exp is None:
@@ -110,7 +120,7 @@ def check_result(kind, args_case, kwargs_case, out, rec, lib, tz, t_before, t_af
             base = parse(ts) if (want_ts is None and isinstance(ts, str) and DATE_RX.match(ts)) else None
             if base is not None:
                 delta = (parse(exp) - base).total_seconds()
-                if not (365 * 86400 - 5 <= delta <= 365 * 86400 + 5):
+                if not ((365 - 2) * 86400 <= delta <= (366 + 2) * 86400):  # "about one year later"
                     rec.violation("builder/%s/default-expiry-not-one-year" % kind,
                                   "default expiration - timestamp = %.0f s (%.1f days)" % (delta, delta / 86400), case)
                 if delta <= 0:
@@ -118,7 +128,7 @@ def check_result(kind, args_case, kwargs_case, out, rec, lib, tz, t_before, t_af
             else:
                 # explicit timestamp, default expiration: about one year from now
                 delta = (parse(exp) - t_before).total_seconds()
-                if not (365 * 86400 - TOL - 3 <= delta <= 365 * 86400 + TOL + 3 + (t_after - t_before).total_seconds()):
+                if not ((365 - 2) * 86400 <= delta <= (366 + 2) * 86400 + (t_after - t_before).total_seconds()):
                     rec.violation("builder/%s/default-expiry-not-one-year" % kind,
                                   "default expiration is %.1f days from now" % (delta / 86400), case)
     # checker + schema on the wrapped result
